@@ -1,12 +1,461 @@
-//! C06 — not built yet (stub).
+//! C06 — rejected or losing-fork input leaves best-chain state untouched.
+//! Twin execution: chain A receives the full history, chain B the history
+//! with the bad inputs removed; after every step both must agree.
 
 use crate::engine::*;
-use serde_json::Value;
+use crate::props::c02::scan;
+use crate::world::gen::*;
+use crate::world::tamper::*;
+use crate::world::*;
+use crate::{ensure, fail};
+use grin_chain::types::Options;
+use grin_core::core::hash::{Hash, Hashed};
+use grin_core::core::BlockHeader;
+use grin_core::pow::Difficulty;
+use proptest::prelude::*;
+use serde_derive::{Deserialize, Serialize};
+use serde_json::{json, Value};
+use std::collections::BTreeSet;
 
-pub fn run(_ctx: &Ctx) -> HResult<()> {
-	Err(HarnessError("C06 check not built yet".into()))
+#[derive(Clone, Debug, Serialize, Deserialize)]
+pub enum Bad {
+	/// catalogue corruption (index into block_catalogue) of a block on the head
+	Tamper(u8, RawBlock),
+	/// UTXO-level negative block (double spend, spent, foreign, never, dup, immature)
+	Neg(RawBlock),
+	/// sync_block_headers batch [valid header, child with wrong total difficulty]
+	HeaderBatchSecondBad(RawBlock),
+	/// sync_block_headers with a header whose prev_root is wrong (fails inside the header extension)
+	HeaderBatchBadRoot(RawBlock),
+	/// process_block_header of a header with a wrong prev_root
+	HeaderBadRoot(RawBlock),
+	/// validate_tx of a transaction with two NRD kernels sharing an excess
+	TxNrdDuplicate(u16),
+	/// validate_tx of a transaction spending a never-created output
+	TxBadInput(u16),
+	/// a valid block on an ancestor of the head that does not win (A only)
+	LosingFork(u8, RawBlock),
 }
 
-pub fn replay(_ctx: &Ctx, _part: &str, _case: &Value) -> PResult {
+#[derive(Clone, Debug, Serialize, Deserialize)]
+pub enum Op {
+	Good(RawBlock),
+	Bad(Bad, u16),
+	Reopen,
+}
+
+#[derive(Clone, Debug, Serialize, Deserialize)]
+pub struct Case {
+	pub ops: Vec<Op>,
+}
+
+fn bad() -> impl Strategy<Value = Bad> {
+	let ncat = block_catalogue().len() as u8;
+	prop_oneof![
+		10 => (0..ncat, raw_block(0)).prop_map(|(i, b)| Bad::Tamper(i, b)),
+		4 => raw_block(1000).prop_map(Bad::Neg),
+		1 => raw_block(0).prop_map(Bad::HeaderBatchSecondBad),
+		1 => raw_block(0).prop_map(Bad::HeaderBatchBadRoot),
+		1 => raw_block(0).prop_map(Bad::HeaderBadRoot),
+		1 => any::<u16>().prop_map(Bad::TxNrdDuplicate),
+		1 => any::<u16>().prop_map(Bad::TxBadInput),
+		4 => (1u8..5, raw_block(0)).prop_map(|(d, b)| Bad::LosingFork(d, b)),
+	]
+}
+
+pub fn case_strategy(max_ops: usize) -> impl Strategy<Value = Case> {
+	let good = (raw_block(0), prop_oneof![9 => Just(0u8), 3 => Just(1u8), 3 => 101u8..105]).prop_map(|(mut b, p)| {
+		b.parent = p;
+		vec![Op::Good(b)]
+	});
+	// fork run: branch off an ancestor at depth d and extend it until it wins
+	let fork_run = (1u8..=4, 1u8..=2, prop::collection::vec(raw_block(0), 6)).prop_map(|(d, extra, mut bs)| {
+		bs.truncate(d as usize + extra as usize);
+		for (i, b) in bs.iter_mut().enumerate() {
+			b.parent = if i == 0 { 100 + d } else { 1 };
+		}
+		bs.into_iter().map(Op::Good).collect::<Vec<_>>()
+	});
+	let seg = prop_oneof![
+		8 => good,
+		3 => fork_run,
+		8 => (bad(), any::<u16>()).prop_map(|(b, p)| vec![Op::Bad(b, p)]),
+		1 => Just(vec![Op::Reopen]),
+	];
+	prop::collection::vec(seg, 4..=max_ops).prop_map(move |segs| {
+		let mut ops: Vec<Op> = segs.into_iter().flatten().collect();
+		ops.truncate(max_ops + 4);
+		Case { ops }
+	})
+}
+
+fn roots_of(cb: &ChainBox) -> Result<String, Fail> {
+	let tx = cb.c().txhashset();
+	let r = tx.read().roots().map_err(|e| Fail::new("roots-err", format!("{:?}", e)))?;
+	Ok(format!("{:?}/{:?}/{:?}/{:?}", r.output_roots.pmmr_root, r.output_roots.bitmap_root, r.rproof_root, r.kernel_root))
+}
+
+/// A and B agree on everything the statement lists
+fn compare(a: &ChainBox, b: &ChainBox, w: &World, when: &str) -> PResult {
+	let (ha, hb) = (a.c().head().map_err(|e| Fail::new("head-err", format!("{:?}", e)))?, b.c().head().map_err(|e| Fail::new("head-err", format!("{:?}", e)))?);
+	ensure!(ha == hb, "twin-head-differs", "{}: head differs: A {:?}@{} B {:?}@{}", when, ha.last_block_h, ha.height, hb.last_block_h, hb.height);
+	let (ra, rb) = (roots_of(a)?, roots_of(b)?);
+	ensure!(ra == rb, "twin-roots-differ", "{}: state roots differ: A {} B {}", when, ra, rb);
+	let ua = chain_unspent(a.c(), &w.commits).map_err(|e| Fail::new("get_unspent-err", e))?;
+	let ub = chain_unspent(b.c(), &w.commits).map_err(|e| Fail::new("get_unspent-err", e))?;
+	ensure!(ua == ub, "twin-unspent-differs", "{}: unspent sets differ ({} vs {} entries)", when, ua.len(), ub.len());
+	// stored sums and spend records of best-chain blocks
+	let mut h = ha.last_block_h;
+	let mut n = 0;
+	while n < 12 {
+		let (Ok(hdr_a), Ok(hdr_b)) = (a.c().get_block_header(&h), b.c().get_block_header(&h)) else {
+			fail!("twin-best-chain-header-missing", "{}: best-chain header {:?} missing on one side", when, h);
+		};
+		let _ = hdr_b;
+		let (sa, sb) = (a.c().get_block_sums(&h), b.c().get_block_sums(&h));
+		match (sa, sb) {
+			(Ok(x), Ok(y)) => ensure!(x.utxo_sum == y.utxo_sum && x.kernel_sum == y.kernel_sum, "twin-block-sums-differ", "{}: stored sums of best-chain block at height {} differ", when, hdr_a.height),
+			(Err(_), Err(_)) => {}
+			_ => fail!("twin-block-sums-presence", "{}: stored sums of best-chain block at height {} present on one side only", when, hdr_a.height),
+		}
+		let (ia, ib) = (
+			a.c().store().batch().and_then(|bt| bt.get_spent_index(&h)).map_err(|e| format!("{:?}", e)),
+			b.c().store().batch().and_then(|bt| bt.get_spent_index(&h)).map_err(|e| format!("{:?}", e)),
+		);
+		match (ia, ib) {
+			(Ok(x), Ok(y)) => {
+				let fx: Vec<(u64, u64)> = x.iter().map(|p| (p.pos, p.height)).collect();
+				let fy: Vec<(u64, u64)> = y.iter().map(|p| (p.pos, p.height)).collect();
+				ensure!(fx == fy, "twin-spent-index-differs", "{}: spend record of best-chain block at height {} differs: {:?} vs {:?}", when, hdr_a.height, fx, fy);
+			}
+			(Err(_), Err(_)) => {}
+			_ => fail!("twin-spent-index-presence", "{}: spend record of best-chain block at height {} present on one side only", when, hdr_a.height),
+		}
+		if hdr_a.height == 0 {
+			break;
+		}
+		h = hdr_a.prev_hash;
+		n += 1;
+	}
 	Ok(())
+}
+
+fn res_kind<T, E: std::fmt::Debug>(r: &Result<T, E>) -> String {
+	match r {
+		Ok(_) => "ok".into(),
+		Err(e) => {
+			let s = format!("{:?}", e);
+			s.split(|c: char| !c.is_alphanumeric()).next().unwrap_or("err").to_string()
+		}
+	}
+}
+
+/// a header that is fully valid on `prev` (an empty block's header), mined
+fn valid_header(a: &ChainBox, w: &mut World, raw: &RawBlock, head: usize) -> Result<BlockHeader, Fail> {
+	let mut r = raw.clone();
+	r.parent = 0;
+	r.txs.clear();
+	r.neg = Neg::None;
+	let built = w.build(a.c(), &r, head).map_err(|e| Fail::new("builder", e))?;
+	Ok(built.block.header)
+}
+
+pub fn run_case(ctx: &Ctx, case: &Case, counting: bool) -> PResult {
+	init_thread();
+	let ev = &ctx.ev;
+	let mut a = ChainBox::open(&ctx.scratch_dir("c06a")).map_err(|e| Fail::new("init-fresh", e))?;
+	let mut b = ChainBox::open(&ctx.scratch_dir("c06b")).map_err(|e| Fail::new("init-fresh", e))?;
+	let mut w = World::new(&a.genesis, true);
+	let mut head = 0usize;
+	let o = Options::NONE;
+	let cat = block_catalogue();
+	let mut stages: BTreeSet<String> = BTreeSet::new();
+	let (mut good_after_bad, mut reorg_after_bad, mut seen_bad) = (0u32, 0u32, false);
+	// a few empty blocks first so that coinbases mature and bad inputs have something to spend
+	let mut ops: Vec<Op> = (0..4)
+		.map(|_| {
+			Op::Good(RawBlock {
+				parent: 0,
+				cb_key: 0,
+				txs: vec![],
+				dt: 60,
+				diff: 1,
+				neg: Neg::None,
+				neg_pick: 0,
+			})
+		})
+		.collect();
+	ops.extend(case.ops.iter().cloned());
+	for (i, op) in ops.iter().enumerate() {
+		match op {
+			Op::Good(raw) => {
+				let mut r = raw.clone();
+				r.neg = Neg::None;
+				let built = w.build(a.c(), &r, head).map_err(|e| Fail::new("builder", format!("op {}: {}", i, e)))?;
+				let model = match &built.verdict {
+					Ok(m) => m.clone(),
+					Err(e) => fail!("harness:model-invalid", "op {}: generated good block invalid in model: {:?}", i, e),
+				};
+				let ra = a.c().process_block(built.block.clone(), o);
+				let rb = b.c().process_block(built.block.clone(), o);
+				ensure!(
+					res_kind(&ra) == res_kind(&rb) && ra.as_ref().ok().map(|t| t.is_some()) == rb.as_ref().ok().map(|t| t.is_some()),
+					"twin-result-differs",
+					"op {}: good block h={} processed differently: A {:?} B {:?}",
+					i,
+					built.block.header.height,
+					ra.as_ref().map(|t| t.is_some()).map_err(|e| err_name(e)),
+					rb.as_ref().map(|t| t.is_some()).map_err(|e| err_name(e))
+				);
+				match ra {
+					Ok(tip) => {
+						let n = w.push(&built, model);
+						if tip.is_some() {
+							if seen_bad {
+								good_after_bad += 1;
+								if built.parent != head {
+									reorg_after_bad += 1;
+								}
+							}
+							head = n;
+						}
+					}
+					Err(e) => fail!("valid-block-rejected", "op {}: good block rejected by both twins: {}", i, err_name(&e)),
+				}
+			}
+			Op::Reopen => {
+				a.reopen().map_err(|e| Fail::new("reopen-failed", e))?;
+				b.reopen().map_err(|e| Fail::new("reopen-failed", e))?;
+			}
+			Op::Bad(bad, pick) => {
+				let pick = *pick as usize;
+				let prev = w.nodes[head].block.header.clone();
+				match bad {
+					Bad::Tamper(ci, raw) => {
+						let t = cat[*ci as usize % cat.len()];
+						let mut r = raw.clone();
+						r.parent = 0;
+						r.neg = Neg::None;
+						let specs = w.resolve_specs(&r, head);
+						for s in &specs {
+							for x in s.inputs.iter().chain(s.outputs.iter()) {
+								w.note(x);
+							}
+						}
+						let cb_key = (prev.height as u32 + 1) * 4 + 2;
+						let tb = tampered_block(a.c(), &prev, &specs, cb_key, r.dt as i64, t, pick).map_err(|e| Fail::new("builder", format!("op {} {:?}: {}", i, t, e)))?;
+						let Some(tb) = tb else { continue };
+						if tb.valid {
+							continue;
+						}
+						let res = a.c().process_block(tb.block.clone(), o);
+						ensure!(res.is_err(), format!("bad-input-accepted:{:?}", t), "op {}: corrupted block {:?} accepted", i, t);
+						stages.insert(format!("{:?}", tb.stage));
+						if counting {
+							ev.class(&format!("bad_stage:{:?}", tb.stage));
+						}
+						seen_bad = true;
+					}
+					Bad::Neg(raw) => {
+						let mut r = raw.clone();
+						r.parent = 0;
+						let built = w.build(a.c(), &r, head).map_err(|e| Fail::new("builder", format!("op {}: {}", i, e)))?;
+						if built.verdict.is_ok() {
+							continue; // the defect could not be constructed here
+						}
+						let res = a.c().process_block(built.block.clone(), o);
+						ensure!(res.is_err(), format!("bad-input-accepted:{:?}", built.neg), "op {}: negative block {:?} accepted", i, built.neg);
+						stages.insert(format!("Utxo:{:?}", built.neg));
+						if counting {
+							ev.class(&format!("bad_stage:Utxo:{:?}", built.neg));
+						}
+						seen_bad = true;
+					}
+					Bad::HeaderBatchSecondBad(raw) => {
+						let h1 = valid_header(&a, &mut w, raw, head)?;
+						// child of h1 claiming a wrong cumulative difficulty, mined for it
+						let mut h2 = h1.clone();
+						h2.height = h1.height + 1;
+						h2.version = grin_core::consensus::header_version(h2.height);
+						h2.prev_hash = h1.hash();
+						h2.timestamp = h1.timestamp + chrono::Duration::seconds(60);
+						h2.output_mmr_size = grin_core::core::pmmr::insertion_to_pmmr_index(h1.output_mmr_count() + 1);
+						h2.kernel_mmr_size = grin_core::core::pmmr::insertion_to_pmmr_index(h1.kernel_mmr_count() + 1);
+						h2.pow.total_difficulty = h1.pow.total_difficulty + Difficulty::from_num(1_000_000);
+						h2.pow.nonce = pick as u64;
+						let sync_head = a.c().header_head().map_err(|e| Fail::new("header_head-err", format!("{:?}", e)))?;
+						let res = a.c().sync_block_headers(&[h1.clone(), h2], sync_head, o);
+						ensure!(res.is_err(), "bad-input-accepted:header-batch", "op {}: header batch with an invalid second header accepted", i);
+						// the whole batch is dropped: not even the valid first header may have moved header_head
+						stages.insert("HeaderBatch".into());
+						if counting {
+							ev.class("bad_stage:HeaderBatchSecondBad");
+						}
+						seen_bad = true;
+					}
+					Bad::HeaderBatchBadRoot(raw) | Bad::HeaderBadRoot(raw) => {
+						let mut h1 = valid_header(&a, &mut w, raw, head)?;
+						let mut v = h1.prev_root.to_vec();
+						v[pick % 32] ^= 0x40;
+						h1.prev_root = Hash::from_vec(&v);
+						// re-mine: prev_root is part of the PoW pre-image
+						let diff = h1.total_difficulty() - prev.total_difficulty();
+						h1.pow.nonce = 0;
+						grin_core::pow::pow_size(&mut h1, diff, grin_core::global::proofsize(), grin_core::global::min_edge_bits()).map_err(|e| Fail::new("builder", format!("{:?}", e)))?;
+						let res = if matches!(bad, Bad::HeaderBatchBadRoot(_)) {
+							let sync_head = a.c().header_head().map_err(|e| Fail::new("header_head-err", format!("{:?}", e)))?;
+							a.c().sync_block_headers(&[h1], sync_head, o).map(|_| ())
+						} else {
+							a.c().process_block_header(&h1, o)
+						};
+						ensure!(res.is_err(), "bad-input-accepted:header-bad-root", "op {}: header with a wrong prev_root accepted", i);
+						stages.insert("HeaderExtension".into());
+						if counting {
+							ev.class("bad_stage:HeaderExtensionRoot");
+						}
+						seen_bad = true;
+					}
+					Bad::TxNrdDuplicate(p) => {
+						// two NRD kernels with the same excess inside one transaction
+						let out = OutRef {
+							amount: AMT_MENU[*p as usize % 5],
+							key: 60 + (*p % 4) as u32,
+							cb: false,
+						};
+						let k = KernelSpec {
+							kind: KKind::Nrd,
+							fee: 1,
+							shift: 0,
+							lock: 1 + (*p % 3) as u64,
+							excess_tag: 4242,
+						};
+						let spec = TxSpec {
+							inputs: vec![OutRef {
+								amount: out.amount + 2,
+								key: 333,
+								cb: false,
+							}],
+							outputs: vec![out],
+							kernels: vec![k, k],
+							zero_offset: false,
+						};
+						let (tx, _) = assemble(&spec);
+						let res = a.c().validate_tx(&tx);
+						ensure!(res.is_err(), "bad-input-accepted:tx", "op {}: invalid transaction validated", i);
+						stages.insert("TxReadonlyExtension".into());
+						if counting {
+							ev.class("bad_stage:TxNrdDuplicate");
+						}
+						seen_bad = true;
+					}
+					Bad::TxBadInput(p) => {
+						let out = OutRef {
+							amount: AMT_MENU[*p as usize % 5],
+							key: 64 + (*p % 4) as u32,
+							cb: false,
+						};
+						let spec = TxSpec {
+							inputs: vec![OutRef {
+								amount: out.amount + 1,
+								key: 7000 + *p as u32,
+								cb: false,
+							}],
+							outputs: vec![out],
+							kernels: vec![KernelSpec {
+								kind: KKind::Nrd,
+								fee: 1,
+								shift: 0,
+								lock: 2,
+								excess_tag: 0,
+							}],
+							zero_offset: false,
+						};
+						let (tx, _) = assemble(&spec);
+						let res = a.c().validate_tx(&tx);
+						ensure!(res.is_err(), "bad-input-accepted:tx", "op {}: transaction spending a never-created output validated", i);
+						if counting {
+							ev.class("bad_stage:TxBadInput");
+						}
+						seen_bad = true;
+					}
+					Bad::LosingFork(d, raw) => {
+						// valid block on an ancestor of the head, with no more work than the head
+						let mut r = raw.clone();
+						r.neg = Neg::None;
+						r.parent = 100 + *d;
+						r.cb_key = 3;
+						let built = w.build(a.c(), &r, head).map_err(|e| Fail::new("builder", format!("op {}: {}", i, e)))?;
+						if built.verdict.is_err() || built.parent == head || built.block.header.total_difficulty() > w.nodes[head].block.header.total_difficulty() {
+							continue;
+						}
+						let res = a.c().process_block(built.block.clone(), o);
+						match res {
+							Ok(None) => {}
+							Ok(Some(_)) => fail!("losing-fork-became-head", "op {}: fork block with no more work became head", i),
+							Err(e) => fail!("valid-block-rejected", "op {}: valid fork block rejected: {}", i, err_name(&e)),
+						}
+						stages.insert("LosingFork".into());
+						if counting {
+							ev.class("bad_stage:LosingFork");
+						}
+						seen_bad = true;
+					}
+				}
+			}
+		}
+		compare(&a, &b, &w, &format!("after op {}", i))?;
+		if i % 5 == 4 {
+			scan(&a, &w, &format!("A vs model after op {}", i))?;
+		}
+	}
+	a.c().validate(false).map_err(|e| Fail::new("validate-failed", format!("A: {:?}", e)))?;
+	b.c().validate(false).map_err(|e| Fail::new("validate-failed", format!("B: {:?}", e)))?;
+	a.reopen().map_err(|e| Fail::new("reopen-failed", e))?;
+	b.reopen().map_err(|e| Fail::new("reopen-failed", e))?;
+	compare(&a, &b, &w, "after final reopen")?;
+	scan(&a, &w, "A vs model after final reopen")?;
+	if counting {
+		ev.eval();
+		let late = stages.iter().any(|s| s.starts_with("Utxo") || s == "Sums" || s == "RootsAfterApply" || s == "CoinbaseRule" || s == "LosingFork" || s == "HeaderExtension");
+		if late && good_after_bad > 0 {
+			ev.class("histories_continued_after_late_rejection");
+		}
+		if late && good_after_bad > 0 && reorg_after_bad > 0 {
+			ev.nontrivial(&(stages.iter().cloned().collect::<Vec<_>>(), good_after_bad.min(6), reorg_after_bad.min(3)));
+		}
+	}
+	Ok(())
+}
+
+pub fn run(ctx: &Ctx) -> HResult<()> {
+	init_global();
+	let ev = &ctx.ev;
+	ev.rule("histories of good blocks (incl. forks/reorgs, reopen) interleaved with bad inputs failing at every validation stage (PoW, header rule, body validation, coinbase rule, UTXO checks, sums, root/size mismatch after the block was applied, bad header batches, failing validate_tx through the read-only extension) and valid losing-fork blocks; twin chain B never sees the bad inputs; after every step head, roots, full unspent scan, stored sums and spend records of the last 12 best-chain blocks and the result of every later delivery are compared, finally validate(false) and reopen on both; non-trivial = a rejection at or after the UTXO stage (or a losing fork) followed by accepted blocks including a reorg; distinct by (set of stages, continuation length)");
+	ev.assume("both twins run the same code: the oracle is divergence between them plus the replay model scan of C02; header_head and stored fork headers are excluded as the statement allows");
+	if let Some((case, f)) = pbt_proc(ctx, "history", ctx.n(96, 1600), 16) {
+		ctx.report("history", &f.sig, case, &f.msg);
+	}
+	let s = sample_one(ctx.derive_seed("sample", 0), &case_strategy(5));
+	ev.sample("history", || serde_json::to_value(&s).unwrap());
+	let _ = json!(0);
+	Ok(())
+}
+
+pub fn part(ctx: &Ctx, part: &str, seed: u64, cases: u32) -> Option<(Value, Fail)> {
+	init_global();
+	match part {
+		"history" => run_part(ctx, seed, cases, &case_strategy(if ctx.quick() { 16 } else { 24 }), |c, counting| run_case(ctx, c, counting)),
+		_ => None,
+	}
+}
+
+pub fn replay(ctx: &Ctx, part: &str, case: &Value) -> PResult {
+	init_global();
+	match part {
+		"history" => {
+			let c: Case = serde_json::from_value(case.clone()).map_err(|e| Fail::new("harness:replay-parse", e.to_string()))?;
+			run_case(ctx, &c, false)
+		}
+		_ => Ok(()),
+	}
 }
